@@ -96,7 +96,14 @@ def handler(case):
         evs = []
         for _ in range(case["n"]):
             variant = rng.randrange(1000)
-            evs.append(run_rows(gen_call(rng, big=(variant % 2 == 1 and variant % 5 < 2)), variant))
+            c = gen_call(rng, big=(variant % 2 == 1 and variant % 5 < 2))
+            evs.append(run_rows(c, variant))
+            if c["op"] == "recursive" and rng.random() < 0.5:
+                # the same settings again in this process on a SHORTER input with a more permissive threshold: nothing sized for the
+                # longer input may be carried over
+                t = dict(c); cut = max(c["maxlen"] + 2, (len(c["x"][0]) * 3) // 5)
+                t["x"] = [row[:cut] for row in c["x"]]; t["thr1000"] = 200
+                evs.append(run_rows(t, variant))
         return {"events": evs}
     if mode == "ev":
         return {"ev": run_rows(case["call"], case.get("variant", 0))}
